@@ -35,6 +35,8 @@ def drop_comp(m, i):
 
 
 def _fix_reg(m):
+    for g in m.get("teams", []) + m.get("wps", []):
+        g.pop("parent", None)
     if m.get("reg_order"):
         nt, nw = len(m.get("teams", [])), len(m.get("wps", []))
         m["reg_order"] = None
